@@ -105,6 +105,9 @@ type recState struct {
 	initFn  func(statedb.WriteTxn)
 	waits   sync.WaitGroup
 	useSet  bool
+	// cmu guards failQ, inject, ncalls and target: the script goroutine and the reconciler's operations
+	// run concurrently inside the bubble
+	cmu sync.Mutex
 }
 
 func (st *recState) now() int { return int(time.Since(st.start) / time.Millisecond) }
@@ -217,14 +220,17 @@ func (st *recState) userWrite(kind string, k int) {
 
 func (st *recState) outcome(on string, k uint64) (fail bool, inj *recInject) {
 	key := fmt.Sprintf("%s/%d", on, k)
+	st.cmu.Lock()
+	defer st.cmu.Unlock()
 	st.ncalls[key]++
 	if st.failQ[key] > 0 {
 		st.failQ[key]--
 		fail = true
 	}
-	for i, in := range st.inject[key] {
+	for _, in := range st.inject[key] {
 		if in.nth == st.ncalls[key] {
-			inj = &st.inject[key][i]
+			c := in
+			inj = &c
 		}
 	}
 	return
@@ -238,7 +244,9 @@ func (o *recOps) doUpdate(txn statedb.ReadTxn, rev statedb.Revision, obj *recObj
 	st.emit(Ev{"op": "call", "kind": "update", "k": int(obj.ID), "ver": obj.Ver, "rev": int(rev), "fail": fail,
 		"t": st.now(), "batch": batch, "trev": int(st.table.Revision(txn)), "skind": kindOf(obj.status()), "arg": [][]int{}})
 	if !fail {
+		st.cmu.Lock()
 		st.target[obj.ID] = obj.Ver
+		st.cmu.Unlock()
 	}
 	if inj != nil {
 		st.userWrite(inj.do, int(obj.ID))
@@ -255,7 +263,9 @@ func (o *recOps) doDelete(txn statedb.ReadTxn, rev statedb.Revision, obj *recObj
 	st.emit(Ev{"op": "call", "kind": "delete", "k": int(obj.ID), "ver": obj.Ver, "rev": int(rev), "fail": fail,
 		"t": st.now(), "batch": batch, "trev": int(st.table.Revision(txn)), "skind": kindOf(obj.status()), "arg": [][]int{}})
 	if !fail {
+		st.cmu.Lock()
 		delete(st.target, obj.ID)
+		st.cmu.Unlock()
 	}
 	if inj != nil {
 		st.userWrite(inj.do, int(obj.ID))
@@ -283,11 +293,13 @@ func (o *recOps) Prune(ctx context.Context, txn statedb.ReadTxn, objs iter.Seq2[
 	init, _ := st.table.Initialized(txn)
 	st.emit(Ev{"op": "call", "kind": "prune", "k": 0, "ver": 0, "rev": 0, "fail": false, "t": st.now(), "batch": false,
 		"trev": int(st.table.Revision(txn)), "skind": fmt.Sprint(init), "arg": arg})
+	st.cmu.Lock()
 	for k := range st.target {
 		if !keep[k] {
 			delete(st.target, k)
 		}
 	}
+	st.cmu.Unlock()
 	return nil
 }
 
@@ -388,10 +400,14 @@ func runRecScript(t *testing.T, sc Script, log *Log) {
 			case "user":
 				st.userWrite(op.Kind, op.K)
 			case "fail":
+				st.cmu.Lock()
 				st.failQ[fmt.Sprintf("%s/%d", op.On, op.K)] += op.N
+				st.cmu.Unlock()
 			case "inject":
 				key := fmt.Sprintf("%s/%d", op.On, op.K)
+				st.cmu.Lock()
 				st.inject[key] = append(st.inject[key], recInject{nth: st.ncalls[key] + op.Nth, do: op.Do})
+				st.cmu.Unlock()
 			case "sleep":
 				time.Sleep(time.Duration(op.Ms) * time.Millisecond)
 				synctest.Wait()
@@ -438,7 +454,7 @@ func runRecScript(t *testing.T, sc Script, log *Log) {
 				}
 				tg := [][]int{}
 				keys := []int{}
-				st.mu.Lock()
+				st.cmu.Lock()
 				for k := range st.target {
 					keys = append(keys, int(k))
 				}
@@ -446,7 +462,7 @@ func runRecScript(t *testing.T, sc Script, log *Log) {
 				for _, k := range keys {
 					tg = append(tg, []int{k, st.target[uint64(k)]})
 				}
-				st.mu.Unlock()
+				st.cmu.Unlock()
 				st.emit(Ev{"op": "quiesce", "t": st.now(), "table": rows, "target": tg})
 			default:
 				panic("drv_rec: unknown op " + op.Op)
